@@ -111,12 +111,17 @@ fn scenarios(thorough: bool) -> Vec<Scenario> {
     let msg = |b: &[u8]| Op::Message { bytes: b.to_vec(), want: eth::eip191_digest(b) };
     let path = |t: &str| Op::PathText { text: t.to_string(), want: match refmodel::grammar::classify_path(t) { Class::Accept(p) => Some(refmodel::grammar::path_text(&p)), _ => None } };
     let sigt = |k: usize, d: u8, mangle: bool| { let (r, s2, odd, _) = curve.sign_rfc6979(&keys[k], &[d; 32]); let t = eth::sig_text(&r, &s2, odd); if mangle { Op::SigText { text: format!("{}1d", &t[..130]), want: None } } else { Op::SigText { text: t.clone(), want: Some(t) } } };
+    let sigraw = |r: u64, s2: u64, v: u8| { let t = format!("0x{}{}{:02x}", U256::from_u64(r).to_hex64(), U256::from_u64(s2).to_hex64(), v); let ok = r != 0 && s2 != 0 && (v == 27 || v == 28); Op::SigText { text: t.clone(), want: if ok { Some(t) } else { None } } };
     let d3 = { let mut d = d1.clone(); d.types[0] = ("EIP712Domain".into(), sv(&[("chainId", "uint256"), ("name", "string")])); d }; // reordered domain type: refused
     let d4 = { let mut d = d1.clone(); d.types[1] = ("Mail".into(), sv(&[("from", "Person"), ("n", "uint8")])); d };                       // 300 out of range for uint8: refused
     let txal = |kind: Kind, k: usize, al: Vec<([u8; 20], Vec<[u8; 32]>)>| { let mut t = txjson::template(kind, true); t.access_list = al; let d = t.signing_hash(); let (r, s, odd, _) = curve.sign_rfc6979(&keys[k], &d); Op::Tx { json: txjson::tx_json(&t, txjson::Spell::Auto).to_text(), key: keys[k].to_be(), want: t.signed_payload(odd, &r.to_nat(), &s.to_nat()) } };
     let (lx, ly, lz) = (vec![([0xc1u8; 20], vec![[1u8; 32]])], vec![([0xc2u8; 20], vec![[2u8; 32], [3u8; 32]])], vec![([0xc3u8; 20], vec![])]);
     let dg = { let mut d = d1.clone(); d.domain = J::obj(vec![("name", J::s("hdwallet")), ("chainId", J::n("5"))]); d };   // same types, another chain
     let dh = { let mut d = d1.clone(); d.domain = J::obj(vec![("name", J::s("other")), ("chainId", J::n("1"))]); d };      // same types, another name
+    // a document that declares 36 distinct member types (a bounded table of parsed types is flooded by one call)
+    let dflood = { let tys: Vec<String> = (2..=32).map(|k| format!("uint{}", k * 8)).chain((2..=6).map(|k| format!("int{}", k * 8))).collect();
+        let members: Vec<(String, String)> = tys.iter().enumerate().map(|(i, t)| (format!("m{i}"), t.clone())).collect();
+        eip712::Doc { types: vec![("EIP712Domain".into(), sv(&[("name", "string"), ("chainId", "uint256")])), ("Mail".into(), members.clone())], primary: "Mail".into(), domain: J::obj(vec![("name", J::s("hdwallet")), ("chainId", J::n("1"))]), message: J::Obj(members.iter().map(|(n, _)| (n.clone(), J::n("300"))).collect()) } };
     let mut v = vec![
         // warm state first, then overlapping calls (a cache that is hit, re-ordered or re-keyed while another thread is between its look-up and its use)
         Scenario { name: "warm-parse-then-two-phrases-2t", pid: "C01", bound: 2, warmup: vec![parse(&pa), parse(&pc)], threads: vec![vec![parse(&pb), parse(&pa)], vec![parse(&pa), parse(&pb)]], max_schedules: 50_000 },
@@ -132,6 +137,25 @@ fn scenarios(thorough: bool) -> Vec<Scenario> {
         Scenario { name: "warm-typed-data-then-redefinition-2t", pid: "C08", bound: 2, warmup: vec![typed(&d1)], threads: vec![vec![typed(&d2), typed(&d1)], vec![typed(&d1), typed(&d2)]], max_schedules: 50_000 },
         Scenario { name: "warm-messages-then-the-first-again-2t", pid: "C10", bound: 2, warmup: vec![msg(b"a"), msg(b"ab")], threads: vec![vec![msg(b"a"), msg(b"abc")], vec![msg(b"ab"), msg(b"a")]], max_schedules: 50_000 },
         Scenario { name: "warm-paths-then-the-first-again-2t", pid: "C14", bound: 2, warmup: vec![path("m/44'/60'/0'/0/0"), path("m/44'/60'/0'/0/1")], threads: vec![vec![path("m/44'/60'/0'/0/0"), path("m/0")], vec![path("m/44'/60'/0'/0/1"), path("m/44'/60'/0'/0/0")]], max_schedules: 50_000 },
+        // one call against the same call twice (X | Y, Y) and the same call twice against one call (X, X | Y), X and Y colliding: a slot that
+        // is claimed at look-up and filled later ends up with one call's key and the other call's value, and the repeated call reads it
+        Scenario { name: "one-parse-against-the-same-parse-twice-2t", pid: "C01", bound: 2, warmup: vec![], threads: vec![vec![parse(&pa)], vec![parse(&bad), parse(&bad)]], max_schedules: 50_000 },
+        Scenario { name: "one-derive-against-the-same-derive-twice-2t", pid: "C03", bound: 2, warmup: vec![], threads: vec![vec![derive(0, &acct(0))], vec![derive(1, &acct(0)), derive(1, &acct(0))]], max_schedules: 50_000 },
+        Scenario { name: "one-address-against-the-same-address-twice-2t", pid: "C04", bound: 2, warmup: vec![], threads: vec![vec![addr(0)], vec![addr(1), addr(1)]], max_schedules: 50_000 },
+        Scenario { name: "one-signature-against-the-same-signature-twice-2t", pid: "C05", bound: 2, warmup: vec![], threads: vec![vec![sign(0, 0x11)], vec![sign(1, 0x11), sign(1, 0x11)]], max_schedules: 50_000 },
+        Scenario { name: "same-signature-twice-against-another-digest-2t", pid: "C05", bound: 2, warmup: vec![], threads: vec![vec![sign(0, 0x11), sign(0, 0x11)], vec![sign(0, 0x51)]], max_schedules: 50_000 },
+        Scenario { name: "one-transaction-against-the-same-transaction-twice-2t", pid: "C06", bound: 2, warmup: vec![], threads: vec![vec![txal(Kind::Eip2930, 0, lx.clone())], vec![txal(Kind::Eip2930, 0, ly.clone()), txal(Kind::Eip2930, 0, ly.clone())]], max_schedules: 50_000 },
+        Scenario { name: "one-document-against-the-same-document-twice-2t", pid: "C08", bound: 2, warmup: vec![], threads: vec![vec![typed(&d1)], vec![typed(&d2), typed(&d2)]], max_schedules: 50_000 },
+        Scenario { name: "valid-document-against-an-out-of-range-one-twice-2t", pid: "C09", bound: 2, warmup: vec![], threads: vec![vec![typed(&d1)], vec![typed(&d4), typed(&d4)]], max_schedules: 50_000 },
+        Scenario { name: "out-of-range-twice-against-a-flood-of-types-2t", pid: "C09", bound: 2, warmup: vec![], threads: vec![vec![typed(&d4), typed(&d4)], vec![typed(&dflood)]], max_schedules: 50_000 },
+        Scenario { name: "messages-of-colliding-lengths-2t", pid: "C10", bound: 2, warmup: vec![], threads: vec![vec![msg(&[b'x'; 7]), msg(&[b'x'; 7])], vec![msg(&[b'y'; 15])]], max_schedules: 50_000 },
+        Scenario { name: "messages-of-colliding-lengths-three-calls-2t", pid: "C10", bound: 2, warmup: vec![], threads: vec![vec![msg(&[b'x'; 9])], vec![msg(&[b'y'; 73]), msg(&[b'y'; 73]), msg(&[b'x'; 9])]], max_schedules: 50_000 },
+        Scenario { name: "one-path-against-the-same-path-twice-2t", pid: "C14", bound: 2, warmup: vec![], threads: vec![vec![path("m/44'/60'/0'/0/0")], vec![path("m/2147483648"), path("m/2147483648"), path("m/44'/60'/0'/0/1")]], max_schedules: 50_000 },
+        Scenario { name: "well-formed-domain-against-an-ill-formed-one-twice-2t", pid: "C20", bound: 2, warmup: vec![], threads: vec![vec![typed(&d1)], vec![typed(&d3), typed(&d3)]], max_schedules: 50_000 },
+        // texts that share a part (the same r with another s, the same r and s with the other v, the same r with s = 0): whatever a
+        // table indexes or hashes a signature by, two of these collide
+        Scenario { name: "signature-texts-sharing-r-2t", pid: "C15", bound: 2, warmup: vec![], threads: vec![vec![sigraw(1, 1, 27), sigraw(1, 2, 27)], vec![sigraw(1, 2, 27), sigraw(1, 0, 27), sigraw(1, 1, 28)]], max_schedules: 50_000 },
+        Scenario { name: "warm-signature-texts-sharing-parts-2t", pid: "C15", bound: 2, warmup: vec![sigraw(1, 1, 27), sigraw(2, 1, 27)], threads: vec![vec![sigraw(1, 2, 27), sigraw(1, 1, 27)], vec![sigraw(2, 1, 28), sigraw(1, 0, 27), sigraw(2, 1, 27)]], max_schedules: 50_000 },
         Scenario { name: "warm-signature-texts-then-the-first-again-2t", pid: "C15", bound: 2, warmup: vec![sigt(0, 0x11, false), sigt(1, 0x22, false)], threads: vec![vec![sigt(0, 0x11, false), sigt(2, 0x11, false)], vec![sigt(1, 0x22, false), sigt(0, 0x11, false)]], max_schedules: 50_000 },
         Scenario { name: "personal-messages-2t", pid: "C10", bound: 2, threads: vec![vec![msg(b"a"), msg(&[b'a'; 137])], vec![msg(b"ab"), msg(b"a")]], max_schedules: 50_000, warmup: vec![] },
         Scenario { name: "path-texts-2t", pid: "C14", bound: 2, threads: vec![vec![path("m/44'/60'/0'/0/0"), path("m/2147483648")], vec![path("m/44'/60'/0'"), path("m/0")]], max_schedules: 50_000, warmup: vec![] },
